@@ -50,6 +50,15 @@ theorem fuel_mono (fx : Bool) : ∀ f,
           cases hc : expAfter fx f r (getItem n e).2 with
           | error er => simp [hc] at h
           | ok v => rw [ihe _ _ _ hc]; simp only [hc] at h ⊢; exact ihn _ _ h
+        case ifx =>
+          cases ha : readXTok (getItem n e).2 r with
+          | error er => simp [ha] at h
+          | ok va =>
+            obtain ⟨a, r1⟩ := va
+            simp only [ha] at h ⊢
+            cases hb : readXTok (getItem n e).2 r1 with
+            | error er => simp [hb] at h
+            | ok vb => obtain ⟨b, r2⟩ := vb; simp only [hb] at h ⊢; exact ihn _ _ h
         all_goals exact h
     · intro r e x h
       unfold expAfter at h ⊢
@@ -1908,6 +1917,31 @@ theorem texRun_weaken (ok1 ok2 : Name → TMeaning → Bool) (hok : ∀ n m, ok1
             case csname => exact viaExpand h
             case expandafter => exact viaExpand h
             case endcsname => simp at h
+            case else_ => simp at h
+            case fi => simp at h
+            case ifx =>
+              simp only at h ⊢
+              match rest, h with
+              | [], h => simp at h
+              | [_], h => simp at h
+              | t1 :: t2 :: r, h =>
+                simp only at h ⊢
+                cases hk1 : ifxKind cur t1 with
+                | none => simp [hk1] at h
+                | some k1 =>
+                  cases hk2 : ifxKind cur t2 with
+                  | none => simp [hk1, hk2] at h
+                  | some k2 =>
+                    simp only [hk1, hk2] at h ⊢
+                    cases hag : ifxAgree k1 k2 with
+                    | none => simp [hag] at h
+                    | some b =>
+                      cases hbr : texBranches cur 0 false [] [] r with
+                      | none => simp [hag, hbr] at h
+                      | some res =>
+                        obtain ⟨tb, fb, after⟩ := res
+                        simp only [hag, hbr] at h ⊢
+                        exact ih _ _ h
             case relax => exact ih _ _ h
             case begingroup => exact ih _ _ h
             case endgroup =>
@@ -1990,5 +2024,159 @@ theorem texRun_weaken (ok1 ok2 : Name → TMeaning → Bool) (hok : ∀ n m, ok1
                     by_cases hk : ok1 nm m' = true
                     · simp only [hk, hok nm m' hk, if_true] at h ⊢; exact ih _ _ h
                     · simp [hk] at h
+
+
+/-! ### `\ifx` inside NF-prog 4: the model's comparison is TeX's -/
+
+def itemTok : BItem → Tok
+  | .tok t => t
+  | _ => .ch 12 0
+
+theorem renderBody_plain : ∀ (b : List BItem), b.all plainItem = true →
+    renderBody b = b.map itemTok ∧ (b.map itemTok).all plainChar = true := by
+  intro b
+  induction b with
+  | nil => intro _; exact ⟨rfl, rfl⟩
+  | cons it rest ih =>
+    intro h
+    simp only [List.all_cons, Bool.and_eq_true] at h
+    obtain ⟨e1, e2⟩ := ih h.2
+    cases it with
+    | tok t =>
+      have hp : plainChar t = true := by
+        cases t with
+        | ch cat c =>
+          have := h.1
+          unfold plainItem at this
+          split at this <;> simp_all [plainChar]
+        | cs n => simp [plainItem] at h
+        | el n => simp [plainItem] at h
+      refine ⟨?_, ?_⟩
+      · simp only [renderBody, List.flatMap_cons, renderItem, List.map_cons, itemTok] at e1 ⊢
+        rw [e1]; rfl
+      · simp [itemTok, hp, e2]
+    | par k => simp [plainItem] at h
+    | hash c => simp [plainItem] at h
+
+theorem itemTok_inj : ∀ (a b : List BItem), a.all plainItem = true → b.all plainItem = true →
+    a.map itemTok = b.map itemTok → a = b := by
+  intro a
+  induction a with
+  | nil => intro b _ _ h; cases b with | nil => rfl | cons y ys => simp at h
+  | cons x xs ih =>
+    intro b ha hb h
+    cases b with
+    | nil => simp at h
+    | cons y ys =>
+      simp only [List.all_cons, Bool.and_eq_true] at ha hb
+      simp only [List.map_cons, List.cons.injEq] at h
+      have hxy : x = y := by
+        cases x <;> cases y <;> simp_all [plainItem, itemTok]
+      rw [hxy, ih ys ha.2 hb.2 h.2]
+
+theorem ifValEq_ifValOf (a b : List Tok) : ifValEq (ifValOf a) (ifValOf b) = (a == b) := by
+  match a, b with
+  | [], [] => rfl
+  | [], [y] => rfl
+  | [], y :: z :: w => rfl
+  | [x], [] => rfl
+  | [x], [y] => simp [ifValOf, ifValEq]
+  | [x], y :: z :: w => simp [ifValOf, ifValEq]
+  | x :: x' :: xs, [] => rfl
+  | x :: x' :: xs, [y] => simp [ifValOf, ifValEq]
+  | x :: x' :: xs, y :: z :: w => simp [ifValOf, ifValEq]
+
+theorem ifxKind_mac (tbl : Table) (t : Tok) (body : List BItem) (h : ifxKind tbl t = some (.mac body)) :
+    ∃ n pt, t = .cs n ∧ tbl.lookup n = some (.macro pt body) ∧ pt.pre = [] ∧ pt.params = [] ∧ body.all plainItem = true := by
+  cases t with
+  | el n => simp [ifxKind] at h
+  | ch cat c => simp only [ifxKind] at h; split at h <;> simp at h
+  | cs n =>
+    simp only [ifxKind] at h
+    cases hl : List.lookup n tbl with
+    | none => simp [hl] at h
+    | some m =>
+      cases m with
+      | prim q => simp [hl] at h
+      | latex a b c => simp [hl] at h
+      | «macro» pt body' =>
+        simp only [hl] at h
+        cases hc : (pt.pre.isEmpty && pt.params.isEmpty && body'.all plainItem) with
+        | false => simp [hc] at h
+        | true =>
+          simp only [hc, if_true, Option.some.injEq, IfxKind.mac.injEq] at h
+          subst h
+          simp only [Bool.and_eq_true, List.isEmpty_iff] at hc
+          exact ⟨n, pt, rfl, hl, hc.1.1, hc.1.2, hc.2⟩
+
+theorem ifxKind_char (tbl : Table) (t : Tok) (cat c : Nat) (h : ifxKind tbl t = some (.char cat c)) :
+    t = .ch cat c ∧ (cat = 11 ∨ cat = 12) := by
+  cases t with
+  | el n => simp [ifxKind] at h
+  | ch a b =>
+    simp only [ifxKind] at h
+    by_cases hc : a = 11 ∨ a = 12
+    · simp only [hc, if_true, Option.some.injEq, IfxKind.char.injEq] at h
+      obtain ⟨rfl, rfl⟩ := h; exact ⟨rfl, hc⟩
+    · simp [hc] at h
+  | cs n =>
+    simp only [ifxKind] at h
+    split at h
+    · split at h <;> simp at h
+    · simp at h
+
+/-- one operand of `\ifx`, a character: the `XTok` reader of the code returns the token itself -/
+theorem xtok_of_char (env : Env) (tbl : Table) (t : Tok) (cat c : Nat) (h : ifxKind tbl t = some (.char cat c)) :
+    xtokOfTok env t = .ok (.tok (.ch cat c)) := by
+  obtain ⟨rfl, hc⟩ := ifxKind_char tbl t cat c h
+  simp [xtokOfTok, hc]
+
+/-- one operand of `\ifx`, a plain-text macro: the reader returns its text (one token, or the fragment of its tokens) -/
+theorem xtok_of_mac (fx : Bool) (env : Env) (tbl : Table) (hg : Good fx env tbl) (t : Tok) (body : List BItem)
+    (h : ifxKind tbl t = some (.mac body)) :
+    xtokOfTok env t = .ok (ifValOf (body.map itemTok)) := by
+  obtain ⟨n, pt, rfl, hl, hp1, hp2, hb⟩ := ifxKind_mac tbl t body h
+  have hnr := good_defined hg n _ hl
+  have hrn := hg.rel n hnr
+  rw [hl] at hrn
+  obtain ⟨hlm, _⟩ := mrel_macro hrn
+  obtain ⟨r1, r2⟩ := renderBody_plain body hb
+  have hpt : renderPText pt = [] := by simp [renderPText, hp1, hp2, renderParams]
+  simp [xtokOfTok, hlm, hpt, r1, r2]
+
+/-- **`\ifx` compares as TeX does (NF-prog 4).**  For two operands that TeX classifies as two character tokens or as two
+    macros without parameters and with plain-text replacement texts (`ifxKind`), the values the code's `XTok` reader
+    computes compare equal (`ifValEq`: tokens by category and character, fragments child by child AND by length) exactly
+    when TeX says the two tokens agree. -/
+theorem ifx_compare_is_tex (fx : Bool) (env : Env) (tbl : Table) (hg : Good fx env tbl) (t1 t2 : Tok) (k1 k2 : IfxKind) (b : Bool)
+    (h1 : ifxKind tbl t1 = some k1) (h2 : ifxKind tbl t2 = some k2) (hb : ifxAgree k1 k2 = some b) :
+    ∃ v1 v2, xtokOfTok env t1 = .ok v1 ∧ xtokOfTok env t2 = .ok v2 ∧ ifValEq v1 v2 = b := by
+  cases k1 with
+  | char a c =>
+    cases k2 with
+    | char a' c' =>
+      simp only [ifxAgree, Option.some.injEq] at hb
+      refine ⟨_, _, xtok_of_char env tbl t1 a c h1, xtok_of_char env tbl t2 a' c' h2, ?_⟩
+      subst hb
+      by_cases ha : a = a'
+      · by_cases hc : c = c'
+        · subst ha; subst hc; simp [ifValEq]
+        · simp [ifValEq, ha, hc]
+      · simp [ifValEq, ha]
+    | mac y => simp [ifxAgree] at hb
+  | mac x =>
+    cases k2 with
+    | char a' c' => simp [ifxAgree] at hb
+    | mac y =>
+      simp only [ifxAgree, Option.some.injEq] at hb
+      refine ⟨_, _, xtok_of_mac fx env tbl hg t1 x h1, xtok_of_mac fx env tbl hg t2 y h2, ?_⟩
+      rw [ifValEq_ifValOf]
+      subst hb
+      obtain ⟨_, _, _, _, _, _, hx⟩ := ifxKind_mac tbl t1 x h1
+      obtain ⟨_, _, _, _, _, _, hy⟩ := ifxKind_mac tbl t2 y h2
+      by_cases hxy : x = y
+      · subst hxy; simp
+      · have : x.map itemTok ≠ y.map itemTok := fun e => hxy (itemTok_inj x y hx hy e)
+        simp [hxy, this]
 
 end PlasVerif.Proofs.MacroRun
